@@ -134,9 +134,9 @@ def owns(h, f, i):
     if hasattr(bus, "lock"):
         c.append(f.sig(bus.lock) == (f.sig(it.lock) if hasattr(it, "lock") else bv(1, 0)))
     if hasattr(bus, "cti"):
-        c.append(f.sig(bus.cti) == (f.sig(it.cti) if hasattr(it, "cti") else bv(3, CycleType.CLASSIC.value)))
+        c.append(f.sig(bus.cti) == (f.sig(it.cti) if hasattr(it, "cti") else bv(3, 0b000)))
     if hasattr(bus, "bte"):
-        c.append(f.sig(bus.bte) == (f.sig(it.bte) if hasattr(it, "bte") else bv(2, BurstTypeExt.LINEAR.value)))
+        c.append(f.sig(bus.bte) == (f.sig(it.bte) if hasattr(it, "bte") else bv(2, 0b00)))
     for nm in ("err", "rty"):
         if hasattr(it, nm):
             c.append(f.sig(getattr(it, nm)) == (f.sig(getattr(bus, nm)) if hasattr(bus, nm) else bv(1, 0)))
